@@ -141,6 +141,7 @@ func VerifC18_SilenceLimits() {
 //
 //vf:bounds unwind=12 decisions=200
 //vf:expect reach=stored reach=refused
+//vf:novalidate the engine measures a stand-in size, so which side of the limit a passing path falls on differs natively (counterexamples are still replayed)
 //vf:note encoded sizes are a stand-in in the engine (field counts and string lengths); the limit is expressed relative to the measured size so that witnesses replay natively
 func VerifC18_SilenceSizeBoundary() {
 	limit := 0
